@@ -1190,3 +1190,147 @@ Lemma listener_dies_063_witness :
   accept_loop_063 true sc 0 [Conn 1 0 []; Conn 2 1 [1]] = ([Served [] true; Refused], ReturnedOk) /\
   accept_loop true sc 0 [Conn 1 0 []; Conn 2 1 [1]] = ([Served [] true; Served [] true], Running).
 Proof. vm_compute. split; reflexivity. Qed.
+
+(** * The server over arbitrary event lists *)
+Lemma accept_run_dead odc checked sc evs : forall s,
+  status s <> Running -> accept_run odc checked sc s evs = (s, refused_all evs).
+Proof.
+  induction evs as [|e r IH]; intros s Hs; [reflexivity|].
+  cbn [accept_run]. unfold accept_step.
+  destruct (status s) eqn:E; try contradiction;
+    (rewrite (IH s ltac:(rewrite E; discriminate));
+     destruct e; unfold refused_all; cbn [filter is_conn map]; reflexivity).
+Qed.
+
+(** What the reference gives one connection, and the reference state after it. *)
+Definition spec_conn (sc : sconfig) (q : qstate * qstate) (a t : N) (reqs : list N) : (qstate * qstate) * conn_result :=
+  let (q1, d) := qstep (pre_cfg sc) (fst q) a t in
+  let p1 := after_pre (shared sc) q1 q in
+  match d with
+  | Drop => (p1, Served [] true)
+  | _ => let '(p2, l, c) := spec_requests sc p1 a reqs in (p2, Served l c)
+  end.
+
+Lemma spec_events_conn sc q f a t reqs r :
+  spec_events sc q f (Conn a t reqs :: r)
+  = (snd (spec_conn sc q a t reqs) :: fst (spec_events sc (fst (spec_conn sc q a t reqs)) 0 r),
+     snd (spec_events sc (fst (spec_conn sc q a t reqs)) 0 r)).
+Proof.
+  cbn [spec_events]. unfold spec_conn.
+  destruct (qstep (pre_cfg sc) (fst q) a t) as [q1 d].
+  destruct d.
+  - destruct (spec_requests sc _ a reqs) as [[p2 l] c]. cbn [fst snd].
+    destruct (spec_events sc p2 0 r) as [os st]. reflexivity.
+  - destruct (spec_requests sc _ a reqs) as [[p2 l] c]. cbn [fst snd].
+    destruct (spec_events sc p2 0 r) as [os st]. reflexivity.
+  - cbn [fst snd]. destruct (spec_events sc _ 0 r) as [os st]. reflexivity.
+Qed.
+
+Lemma accept_conn_sim_ev checked sc s q n a t reqs :
+  status s = Running -> sim2p n (lims s) q -> n + N.of_nat (S (length reqs)) <= third ->
+  exists s1,
+    accept_step true checked sc s (Conn a t reqs) = (s1, Some (snd (spec_conn sc q a t reqs))) /\
+    status s1 = Running /\ fails s1 = 0 /\
+    sim2p (n + N.of_nat (S (length reqs))) (lims s1) (fst (spec_conn sc q a t reqs)).
+Proof.
+  intros Hal Hsim Hfit. unfold accept_step, spec_conn. rewrite Hal.
+  destruct (qstep_sim checked (pre_cfg sc) n (fst (lims s)) (fst q) a t (proj1 Hsim)) as [Hd Hs]; [lia|].
+  destruct (register checked (pre_cfg sc) (fst (lims s)) a t) as [st1 d].
+  destruct (qstep (pre_cfg sc) (fst q) a t) as [q1 d'].
+  cbn [fst snd] in *. subst d.
+  assert (Hp1 : sim2p (n + 1) (after_pre (shared sc) st1 (lims s)) (after_pre (shared sc) q1 q)).
+  { apply after_pre_sim; [exact Hs|]. eapply sim2p_mono; [exact Hsim|lia]. }
+  assert (Hserve := serve_sim checked sc a reqs (n + 1) _ _ Hp1).
+  destruct d'.
+  - destruct Hserve as (H1 & H2 & H3); [lia|].
+    destruct (serve_requests checked sc _ a reqs) as [[p2 l] c].
+    destruct (spec_requests sc _ a reqs) as [[q2 l'] c']. cbn [fst snd] in *. subst l' c'.
+    eexists. split; [reflexivity|]. cbn [status fails lims].
+    refine (conj eq_refl (conj eq_refl _)). eapply sim2p_mono; [exact H3|lia].
+  - destruct Hserve as (H1 & H2 & H3); [lia|].
+    destruct (serve_requests checked sc _ a reqs) as [[p2 l] c].
+    destruct (spec_requests sc _ a reqs) as [[q2 l'] c']. cbn [fst snd] in *. subst l' c'.
+    eexists. split; [reflexivity|]. cbn [status fails lims].
+    refine (conj eq_refl (conj eq_refl _)). eapply sim2p_mono; [exact H3|lia].
+  - eexists. split; [reflexivity|]. cbn [status fails lims fst snd].
+    refine (conj eq_refl (conj eq_refl _)). eapply sim2p_mono; [exact Hp1|lia].
+Qed.
+
+Lemma accept_events_sim checked sc : forall evs s q n,
+  status s = Running -> sim2p n (lims s) q -> n + N.of_nat (ev_calls_bound evs) <= third ->
+  snd (accept_run true checked sc s evs) = fst (spec_events sc q (fails s) evs) /\
+  status (fst (accept_run true checked sc s evs)) = snd (spec_events sc q (fails s) evs).
+Proof.
+  induction evs as [|e r IH]; intros s q n Hal Hsim Hfit.
+  - cbn [accept_run fst snd spec_events]. split; [reflexivity|exact Hal].
+  - destruct e as [a t reqs| | | |oh a t].
+    + (* accepted connection *)
+      cbn [accept_run ev_calls_bound] in *.
+      destruct (accept_conn_sim_ev checked sc s q n a t reqs Hal Hsim) as (s1 & Hstep & Hal1 & Hf1 & Hs1); [lia|].
+      rewrite Hstep, spec_events_conn.
+      destruct (IH s1 _ _ Hal1 Hs1) as [E1 E2]; [lia|]. rewrite Hf1 in *.
+      destruct (accept_run true checked sc s1 r) as [s2 os]. cbn [fst snd] in *.
+      split; [rewrite E1; reflexivity|exact E2].
+    + (* accept error *)
+      cbn [accept_run ev_calls_bound spec_events] in *. unfold accept_step. rewrite Hal.
+      destruct (fail_threshold <? fails s + 1) eqn:Hth.
+      * rewrite (accept_run_dead true checked sc r {| status := ReturnedErr; fails := fails s + 1; lims := lims s |} ltac:(discriminate)).
+        cbn [fst snd status]. split; reflexivity.
+      * destruct (IH {| status := Running; fails := fails s + 1; lims := lims s |} q n eq_refl Hsim Hfit) as [E1 E2].
+        destruct (accept_run true checked sc _ r) as [s2 os]. cbn [fst snd fails] in *. split; assumption.
+    + (* QUIC time-out *)
+      cbn [accept_run ev_calls_bound spec_events] in *. unfold accept_step. rewrite Hal.
+      destruct (IH s q n Hal Hsim Hfit) as [E1 E2].
+      destruct (accept_run true checked sc s r) as [s2 os]. cbn [fst snd] in *. split; assumption.
+    + (* shutdown *)
+      cbn [accept_run ev_calls_bound spec_events] in *. unfold accept_step. rewrite Hal.
+      rewrite (accept_run_dead true checked sc r {| status := ReturnedOk; fails := fails s; lims := lims s |} ltac:(discriminate)).
+      cbn [fst snd status]. split; reflexivity.
+    + (* a call made by another task *)
+      cbn [accept_run ev_calls_bound spec_events] in *. unfold accept_step. rewrite Hal.
+      destruct oh.
+      * destruct (qstep_sim checked (host_cfg sc) n (snd (lims s)) (snd q) a t (proj2 Hsim)) as [_ Hs]; [lia|].
+        assert (Hp1 : sim2p (n + 1) (after_host (shared sc) (fst (register checked (host_cfg sc) (snd (lims s)) a t)) (lims s))
+                                    (after_host (shared sc) (fst (qstep (host_cfg sc) (snd q) a t)) q)).
+        { apply after_host_sim; [exact Hs|]. eapply sim2p_mono; [exact Hsim|lia]. }
+        destruct (IH {| status := Running; fails := fails s; lims := _ |} _ (n + 1) eq_refl Hp1) as [E1 E2]; [lia|].
+        destruct (accept_run true checked sc _ r) as [s2 os]. cbn [fst snd fails] in *. split; assumption.
+      * destruct (qstep_sim checked (pre_cfg sc) n (fst (lims s)) (fst q) a t (proj1 Hsim)) as [_ Hs]; [lia|].
+        assert (Hp1 : sim2p (n + 1) (after_pre (shared sc) (fst (register checked (pre_cfg sc) (fst (lims s)) a t)) (lims s))
+                                    (after_pre (shared sc) (fst (qstep (pre_cfg sc) (fst q) a t)) q)).
+        { apply after_pre_sim; [exact Hs|]. eapply sim2p_mono; [exact Hsim|lia]. }
+        destruct (IH {| status := Running; fails := fails s; lims := _ |} _ (n + 1) eq_refl Hp1) as [E1 E2]; [lia|].
+        destruct (accept_run true checked sc _ r) as [s2 os]. cbn [fst snd fails] in *. split; assumption.
+Qed.
+
+(** For every event list the server answers exactly as the reference server for event lists. *)
+Lemma server_events_model checked sc t0 evs :
+  fits (ev_calls_bound evs) -> accept_loop checked sc t0 evs = spec_server_events sc t0 evs.
+Proof.
+  intros Hf. apply (proj1 (fits_third _)) in Hf. unfold accept_loop, spec_server_events.
+  destruct (accept_events_sim checked sc evs (astart t0) (qinit t0, qinit t0) 0 eq_refl (sim2p_start 0 t0)) as [E1 E2]; [lia|].
+  destruct (accept_run true checked sc (astart t0) evs) as [s os]. cbn [fst snd astart fails] in *.
+  rewrite E1, E2. destruct (spec_events sc (qinit t0, qinit t0) 0 evs). reflexivity.
+Qed.
+
+(** The reference server for event lists: how it ends is [loop_spec]; while that says [Running] nobody is
+    refused; after it has ended everybody is; and without events other than connections it is [spec_server]. *)
+Lemma spec_events_status sc : forall evs q f, snd (spec_events sc q f evs) = loop_spec f evs.
+Proof.
+  induction evs as [|e r IH]; intros q f; [reflexivity|].
+  destruct e as [a t reqs| | | |oh a t].
+  - rewrite spec_events_conn. cbn [snd loop_spec]. apply IH.
+  - cbn [spec_events loop_spec]. destruct (fail_threshold <? f + 1); [reflexivity|apply IH].
+  - cbn [spec_events loop_spec]. apply IH.
+  - reflexivity.
+  - cbn [spec_events loop_spec]. destruct oh; apply IH.
+Qed.
+
+Lemma spec_events_conns sc : forall cs q f,
+  spec_events sc q f (map conn_of cs) = (spec_server_from sc q cs, Running).
+Proof.
+  induction cs as [|[[a t] reqs] r IH]; intros q f; [reflexivity|].
+  cbn [map conn_of]. rewrite spec_events_conn. rewrite IH. cbn [fst snd spec_server_from]. unfold spec_conn.
+  destruct (qstep (pre_cfg sc) (fst q) a t) as [q1 d].
+  destruct d; try (destruct (spec_requests sc _ a reqs) as [[p2 l] c]); reflexivity.
+Qed.
